@@ -1010,7 +1010,7 @@ fn explore(ctx: &Ctx) {
             "default": {"gas_schedule": "ConsensusParameters::standard() (hot/cold storage reads differ)", "gas_limit": GAS_LIMIT_DEFAULT, "step_cap": MAX_TRACE_DEFAULT,
                      "contract_a": ["sww [$fp] := 1", "log $one", "srw [$fp] (hot in an uninterrupted run)", "ret"],
                      "contract_b": ["swwq [$fp]", "call A", "cfei 32", "subi r16 $sp 32", "srwq r16 [$fp]", "scwq [$fp]", "ret $one"],
-                     "modes": "all script subsets x all 2^4 subsets of A (programs without a call letter: empty A subset only) + 2 single-step modes; programs whose uninterrupted run exceeds the step cap are left to the unit world"},
+                     "modes": "all script subsets x all 2^4 subsets of A (programs without a call letter: empty A subset only) + 2 single-step modes; programs whose uninterrupted run exceeds the step cap are left to the unit world; quick tier: programs of <= 2 letters only in this world"},
         }),
     );
     ctx.set(
@@ -1028,6 +1028,11 @@ fn explore(ctx: &Ctx) {
         let lo = if len == 0 { 0 } else { space::seq_count(LETTERS.len() as u64, len - 1) };
         let hi = space::seq_count(LETTERS.len() as u64, len);
         for (env, tot) in envs.iter().zip(tots.iter_mut()) {
+            // quick tier: the default-schedule world is bounded to programs of <= 2 letters
+            // (the unit-schedule world keeps the full length k); thorough runs both to k
+            if ctx.quick() && matches!(env.sched, Sched::Default) && len > 2 {
+                continue
+            }
             let (r0, l0, s0) = (tot.programs, tot.too_long, tot.skipped);
             pass(ctx, env, k, lo, hi, tot);
             per_length.push(json!({"world": env.sched.name(), "letters": len, "programs": hi - lo, "run": tot.programs - r0,
